@@ -379,7 +379,7 @@ def c06(ctx):
         cfgv = drv.make_cfg(**cfgkw)
         for f in (("proxy",) if "proxy_protocol" in cfgkw else ("heads1", "pipeline", "chunks")):
             cases = emit_cases(f)
-            cases = rng.sample(cases, min(len(cases), (10 if relax else 25) if ctx.quick else (120 if relax else 250)))
+            cases = rng.sample(cases, min(len(cases), (10 if relax else 25) if ctx.quick else (50 if relax else 250)))
             for ci, case in enumerate(cases):
                 v = rng.randrange(cz.num_variants(case["ms"]))
                 data = bytes(cz.concretize(case["ms"], v, case["cut"]).data)
